@@ -145,6 +145,30 @@ let () =
             Some (Printf.sprintf "H %d %d" !kind !typ)
           end else
           match !kind with
+          (* the (index, element) pairs the iterator model yields: count and position-sensitive checksum *)
+          | 1 | 10 when op = 18 ->
+            let yl l = Printf.sprintf "y%d#%d" (List.length l) (List.fold_left (fun h (i, x) -> hmix (hmix h (zi i)) (zi x)) 0 l) in
+            let m = (match vec_ipairs !vecs with Ok (_, l) -> yl l | Trap t -> "TRAP " ^ trap_name t) in
+            Some (m ^ vec_line () ^ " || " ^ yl (List.mapi (fun i x -> (z_of_int i, x)) !vspec) ^ vspec_line ())
+          | 2 | 11 when op = 18 ->
+            let yl l = Printf.sprintf "y%d#%d" (List.length l) (List.fold_left (fun h (i, x) -> hmix (hmix h (zi i)) (zi x)) 0 l) in
+            let m = (match seq_pairs z0 !seqs with Ok (_, l) -> yl l | Trap t -> "TRAP " ^ trap_name t) in
+            Some (m ^ seq_line () ^ " || " ^ yl (List.mapi (fun i x -> (z_of_int (i + 1), x)) (snd !sspec)) ^ sspec_line ())
+          | 3 | 13 when op = 14 ->
+            let yl l = Printf.sprintf "y%d#%d" (List.length l) (List.fold_left (fun h (i, x) -> hmix (hmix h i) (zi x)) 0 l) in
+            let m = (match dl_pairs !dls with Ok (_, l) -> yl (List.mapi (fun i (_, x) -> (i, x)) l) | Trap t -> "TRAP " ^ trap_name t) in
+            Some (m ^ dl_line () ^ " || " ^ yl (List.mapi (fun i x -> (i, x)) !lspec) ^ lspec_line ())
+          (* the update loops through mipairs / mpairs references, run by the iterator model *)
+          | 1 | 10 when op = 19 ->
+            let f x = if tok_pred (z_of_i64 b) (z_of_i64 c) x then z_of_i64 a else x in
+            let m = (match vec_mipairs_map f !vecs with Ok v -> vecs := v; "-" ^ vec_line () | Trap t -> "TRAP " ^ trap_name t) in
+            vspec := List.map f !vspec;
+            Some (m ^ " || -" ^ vspec_line ())
+          | 3 | 13 when op = 15 ->
+            let f x = if tok_pred (z_of_i64 b) z0 x then z_of_i64 a else x in
+            let m = (match dl_mpairs_map f !dls with Ok d -> dls := d; "-" ^ dl_line () | Trap t -> "TRAP " ^ trap_name t) in
+            lspec := List.map f !lspec;
+            Some (m ^ " || -" ^ lspec_line ())
           (* mnext walks: the number of elements the iterator model visits *)
           | 1 | 10 when op = 17 ->
             let n = (match vec_ipairs !vecs with Ok (_, l) -> string_of_int (List.length l) | Trap t -> "TRAP " ^ trap_name t) in
@@ -371,6 +395,12 @@ let () =
                      | Ok w2 -> let l = sp_view !spans w2 in Some (Printf.sprintf "- %d :%s" (List.length l) (toks l))
                      | Trap t -> Some ("TRAP " ^ trap_name t))
                  | Trap t -> Some ("TRAP " ^ trap_name t))
+             | 5 -> (match spw_sub (nat_of_i64 a) (nat_of_i64 b) whole with        (* ipairs over s:sub(a,b): indices and elements *)
+                 | Ok w -> (match span_ipairs !spans w with
+                     | Ok (_, l) -> Some (Printf.sprintf "- %d :%s" (List.length l)
+                                            (String.concat "" (List.map (fun (i, x) -> " " ^ dec_of_z i ^ " " ^ dec_of_z x) l)))
+                     | Trap t -> Some ("TRAP " ^ trap_name t))
+                 | Trap t -> Some ("TRAP " ^ trap_name t))
              | _ -> Some "?")
           | 8 ->
             (match op with
@@ -400,10 +430,11 @@ let () =
                  | Some l -> Some (String.concat " " (List.map Int64.to_string l)) | None -> Some "none")
              | 22 -> (match select_from (z_of_int 1) [a; b; Int64.logxor a b] with
                  | Some l -> Some (String.concat " " (List.map Int64.to_string l)) | None -> Some "none")
-             | 20 -> let s1 = sbbytes (Int64.to_int a) (Int64.to_int b) in
-                     let s3 = s1 @ [z_of_int 120] in
+             | 20 -> let n = emod (Int64.to_int (Int64.logxor a b)) 5 in
+                     let s1 = sbbytes (Int64.to_int a) n and s2 = sbbytes (Int64.to_int b) n in
+                     let s3 = s2 @ [z_of_int 120] in
                      let b2s x = if x then "1" else "0" in
-                     Some (Printf.sprintf "%s %s %s" (b2s (str_eqb s1 s1)) (b2s (hash_string s1 = hash_string s1)) (b2s (str_eqb s1 s3)))
+                     Some (Printf.sprintf "%s %s %s" (b2s (str_eqb s1 s2)) (b2s (hash_string s1 = hash_string s2)) (b2s (str_eqb s2 s3)))
              | _ -> Some "?")
           | _ -> Some "?"
         with e -> Some ("!exn " ^ Printexc.to_string e)
